@@ -28,6 +28,7 @@ CONSTANTS
   AllowBad,             \* TRUE: files may be unreadable (not UTF-8)
   MaxRuns, MaxFaults, MaxDev, MaxSignals, AllowKill,
   FaultOnLock,          \* TRUE: the lock open/write may fail too
+  FaultOnWalk,          \* TRUE: reading the source directory may fail in the middle of the walk
   ConfigClasses,        \* subset of {"ok","missing","invalid","nosourcedir","sourcedirfile"}: state of the configuration
   AllowEmpty,           \* TRUE: the set of in-scope files may be empty
   RecordHist,           \* TRUE: keep the sequence of developer edits and run requests in g.hist (replay input)
@@ -37,6 +38,8 @@ CONSTANTS
   V_LockFromCounter,    \* TRUE: lock value = counter; FALSE: start + number inserted
   V_Handled,            \* subset of {"INT","TERM"} wired to the stop flag
   V_InterruptedCheckFails,
+  V_StopEndsDiscovery,  \* TRUE: a stop request seen while the source directory is walked ends the run; FALSE: the walk
+                        \* hands on the files found so far and the request counts as dealt with
   V_OverflowFails,      \* TRUE: exhausting the ID range is an error; FALSE: wraps to 0
   EnvTmp                \* the environment's TMPDIR (Env.tla): "usable" | "nocreate" (missing / name not UTF-8: every
                         \* CreateTmp fails) | "norename" (another file system: every RenameTmp fails); these failures
@@ -70,7 +73,8 @@ Visible == [f \in present \ bad |-> tree[f]]       \* what a scan can see
 
 Idle == [pc |-> "idle", mode |-> "none", cache |-> FALSE, cached |-> NoRef, handlers |-> FALSE,
          stop |-> FALSE, order |-> <<>>, i |-> 0, accMax |-> 0, accMissing |-> 0, counter |-> 0,
-         start |-> 0, inserted |-> 0, failure |-> FALSE, cur |-> Null, reported |-> {}, cc |-> "ok"]
+         start |-> 0, inserted |-> 0, failure |-> FALSE, cur |-> Null, reported |-> {}, cc |-> "ok",
+         hidden |-> {}]     \* in-scope files the walk will not be shown (their directory could not be read on)
 
 SlotSeqs == UNION {[1..n -> [uid : {0}, ref : {NoRef} \cup InitRefs, kind : InitKinds]] : n \in 0..MaxSlots}
 (* initial statements get the unique identity 10 * file + position; later ones count from 100 *)
@@ -142,20 +146,48 @@ FinishInterrupted(code) ==
                                   ELSE @,
                     !.clean = IF p.mode = "edit" THEN FALSE ELSE @]
 
-(* finder.rs:71-145: the walk polls the stop flag per entry; WalkDir does not sort, so any order.
-   An empty set of in-scope files is an error in both modes. *)
-Discover ==
+(* finder.rs:71-145.  The walk hands out one entry at a time (WalkDir does not sort, so any order) and the stop flag is
+   polled for every entry handed out - not once more when the directory is exhausted.  An empty set of in-scope files is
+   an error in both modes. *)
+Walked == {p.order[j] : j \in 1..Len(p.order)}
+Remaining == present \ (Walked \cup p.hidden)
+EnterPasses(o, st) ==
+  p' = [p EXCEPT !.order = o, !.i = 1, !.stop = st,
+                 !.pc = IF p.mode = "check" THEN "scan" ELSE IF p.cached # NoRef THEN "p2" ELSE "p1",
+                 !.counter = IF p.cached # NoRef THEN p.cached ELSE 0,
+                 !.start = IF p.cached # NoRef THEN p.cached ELSE 0]
+
+DiscoverStart ==     \* the source directory is examined and opened
   /\ p.pc = "discover"
-  /\ IF p.stop \/ p.cc \in {"nosourcedir", "sourcedirfile"} \/ present = {}
+  /\ IF p.cc \in {"nosourcedir", "sourcedirfile"}
        THEN FinishInterrupted(XNonZero)
-       ELSE \E o \in Perms(present) :
-              /\ p' = [p EXCEPT !.order = o, !.i = 1,
-                             !.pc = IF p.mode = "check" THEN "scan"
-                                    ELSE IF p.cached # NoRef THEN "p2" ELSE "p1",
-                             !.counter = IF p.cached # NoRef THEN p.cached ELSE 0,
-                             !.start = IF p.cached # NoRef THEN p.cached ELSE 0]
-              /\ g' = g
+       ELSE p' = [p EXCEPT !.pc = "walk", !.order = <<>>] /\ g' = g
   /\ UNCHANGED fsvars
+
+DiscoverEntry ==     \* the walk hands out the next in-scope file
+  /\ p.pc = "walk" /\ Remaining # {}
+  /\ IF p.stop
+       THEN IF V_StopEndsDiscovery \/ p.order = <<>>
+              THEN FinishInterrupted(XNonZero)
+              ELSE EnterPasses(p.order, FALSE) /\ g' = g     \* as found in a seeded change: see DESIGN section 8
+       ELSE \E f \in Remaining : p' = [p EXCEPT !.order = Append(@, f)] /\ g' = g
+  /\ UNCHANGED fsvars
+
+DiscoverDone ==      \* the directory is exhausted (the stop flag is not looked at here: the passes poll it first thing)
+  /\ p.pc = "walk" /\ Remaining = {}
+  /\ IF p.order = <<>> THEN FinishInterrupted(XNonZero) ELSE EnterPasses(p.order, p.stop) /\ g' = g
+  /\ UNCHANGED fsvars
+
+(* finder.rs:100-101: an entry that cannot be read is dropped (`filter_map(|e| e.ok())`) and the walk of that directory is
+   over - without a message.  The files it would still have shown are not processed by this run, and a run that was
+   shown at least one file goes on as if they did not exist (DESIGN section 10, O11). *)
+DiscoverFault ==
+  /\ p.pc = "walk" /\ FaultOnWalk /\ g.faults < MaxFaults
+  /\ \E H \in SUBSET Remaining : p' = [p EXCEPT !.hidden = @ \cup H]
+  /\ g' = [g EXCEPT !.faults = @ + 1]
+  /\ UNCHANGED fsvars
+
+Discover == DiscoverStart \/ DiscoverEntry \/ DiscoverDone \/ DiscoverFault
 
 -----------------------------------------------------------------------------
 (* Check mode: generate.rs:625-655 with CountMissingReferenceIdProcessor *)
